@@ -230,6 +230,14 @@ type c17Conn struct {
 	network.Conn
 	local, remote ma.Multiaddr
 	closed        bool
+	dir           network.Direction
+}
+
+// what a swarm connection answers: inbound (accepted by a listener) or
+// outbound (dialed; a dial that leaves from the listen socket - every QUIC
+// dial, TCP with reuseport - has a listen address as its local address)
+func (c *c17Conn) Stat() network.ConnStats {
+	return network.ConnStats{Stats: network.Stats{Direction: c.dir}}
 }
 
 // c17Net is a network.Network that only records the notifiee Start registers
@@ -249,14 +257,17 @@ type c17ConnSpec struct {
 	local    c17Addr
 	remoteIP string // "" = remote multiaddr without an IP
 	port     int
+	out      bool // outbound (dialed from the listen socket); default inbound
 }
 
 type c17Op struct {
-	kind     int // 1 observe, 2 mark closed, 3 disconnect, 4 observe with a disconnect of conn `during` at the listenAddrs() call, 5 two reports in quick succession
+	kind     int // 1 observe, 2 mark closed, 3 disconnect, 4 observe with a disconnect of conn `during` at the listenAddrs() call, 5 two reports in quick succession, 6 the listen set changes, 7 ActivationThresh changes
 	conn     int
 	observed c17Addr
 	during   int
-	second   c17Addr // kind 5: the second report of the pair
+	second   c17Addr   // kind 5: the second report of the pair
+	listen   []c17Addr // kind 6: what listenAddrs() returns from now on
+	thresh   int       // kind 7: the new value of ActivationThresh
 }
 
 type c17Script struct {
@@ -334,10 +345,19 @@ func c17ExecIn(t *testing.T, out *verifh.Out, sc *c17Script, e2e bool) []int64 {
 	ActivationThresh = sc.thresh
 	defer func() { ActivationThresh = saved }()
 
-	listen := make([]ma.Multiaddr, len(sc.listen))
-	for i, a := range sc.listen {
-		listen[i] = ma.StringCast(a.full())
+	// ActivationThresh is a package variable: the deferred restore above keeps a
+	// change made by a case (op 7) from leaking into the next case / other tests
+	// of this single process
+	curThresh := sc.thresh
+	mkListen := func(as []c17Addr) []ma.Multiaddr {
+		l := make([]ma.Multiaddr, len(as))
+		for i, a := range as {
+			l[i] = ma.StringCast(a.full())
+		}
+		return l
 	}
+	listen := mkListen(sc.listen)
+	curListen := sc.listen
 	// like Network.ListenAddresses: a fresh slice on every call
 	var bus event.Bus
 	if e2e {
@@ -426,10 +446,15 @@ func c17ExecIn(t *testing.T, out *verifh.Out, sc *c17Script, e2e bool) []int64 {
 	line = append(line, int64(len(sc.conns)))
 	conns := make([]*c17Conn, len(sc.conns))
 	for i, s := range sc.conns {
-		conns[i] = &c17Conn{local: ma.StringCast(s.local.full()), remote: c17RemoteAddr(s)}
+		conns[i] = &c17Conn{local: ma.StringCast(s.local.full()), remote: c17RemoteAddr(s), dir: network.DirInbound}
+		dir := int64(1)
+		if s.out {
+			conns[i].dir = network.DirOutbound
+			dir = 2
+		}
 		tw, _ := c17Laddr(T, s.local)
 		fam, proto := c17FamProto(s.local.tw)
-		line = append(line, tw, fam, proto)
+		line = append(line, tw, fam, proto, dir)
 		line = append(line, c17RemoteTokens(s.remoteIP)...)
 	}
 	decode := func(m ma.Multiaddr) [2]int64 {
@@ -438,9 +463,65 @@ func c17ExecIn(t *testing.T, out *verifh.Out, sc *c17Script, e2e bool) []int64 {
 		}
 		return [2]int64{-9, -9}
 	}
+	isListenTW := func(a c17Addr) bool {
+		if a.tw == "" {
+			return false
+		}
+		for _, l := range curListen {
+			if l.tw == a.tw {
+				return true
+			}
+		}
+		return false
+	}
+	everNotListening := map[int]bool{}
 	for _, op := range sc.ops {
-		c := conns[op.conn]
+		var c *c17Conn
+		if op.kind != 6 && op.kind != 7 {
+			c = conns[op.conn]
+		}
 		switch op.kind {
+		case 6:
+			line = append(line, 6, int64(len(op.listen)))
+			for _, a := range op.listen {
+				tw, r := c17Laddr(T, a)
+				line = append(line, tw, r)
+			}
+			listen = mkListen(op.listen)
+			curListen = op.listen
+			if out != nil {
+				out.Cover("listen.changed")
+				for i := range conns {
+					if _, ok := o.connObservedTWAddrs[conns[i]]; ok && !conns[i].closed && !isListenTW(sc.conns[i].local) {
+						out.Cover("listen.closed_under_open_credited_conn")
+					}
+				}
+			}
+		case 7:
+			line = append(line, 7, int64(op.thresh))
+			if out != nil {
+				switch {
+				case op.thresh > curThresh:
+					out.Cover("thresh.raised_after_construction")
+				case op.thresh < curThresh:
+					out.Cover("thresh.lowered_after_construction")
+				default:
+					out.Cover("thresh.set_to_same")
+				}
+				for _, m := range o.externalAddrs {
+					for _, s := range m {
+						n := len(s.ObservedBy)
+						if n >= curThresh && n < op.thresh {
+							out.Cover("thresh.raised_above_an_advertised_address")
+						}
+						if n < curThresh && n >= op.thresh {
+							out.Cover("thresh.lowered_to_an_unadvertised_address")
+						}
+					}
+				}
+			}
+			ActivationThresh = op.thresh
+			curThresh = op.thresh
 		case 1, 4:
 			a := op.observed
 			otw := int64(-1)
@@ -457,6 +538,14 @@ func c17ExecIn(t *testing.T, out *verifh.Out, sc *c17Script, e2e bool) []int64 {
 			}
 			line = append(line, int64(op.kind), int64(op.conn), b2i(a.lb), b2i(a.n64), b2i(a.relay), otw, fam, proto)
 			prev, had := o.connObservedTWAddrs[c]
+			if out != nil && had && !c.closed && !isListenTW(sc.conns[op.conn].local) {
+				out.Cover("rereport.credited_conn_whose_listener_is_closed")
+			}
+			if !isListenTW(sc.conns[op.conn].local) {
+				everNotListening[op.conn] = true
+			} else if out != nil && everNotListening[op.conn] && !c.closed {
+				out.Cover("report.listener_reopened_under_open_conn")
+			}
 			hookFired := false
 			if op.kind == 4 {
 				d := conns[op.during]
@@ -576,6 +665,11 @@ func c17ExecIn(t *testing.T, out *verifh.Out, sc *c17Script, e2e bool) []int64 {
 					out.Cover("disconnect.credited")
 					if e2e {
 						out.Cover("e2e.disconnect.credited")
+						if sc.conns[op.conn].out {
+							out.Cover("e2e.disconnect.credited_outbound_conn_from_listen_socket")
+						} else {
+							out.Cover("e2e.disconnect.credited_inbound_conn")
+						}
 					}
 				} else {
 					out.Cover("disconnect.nothing_credited")
@@ -622,14 +716,14 @@ func c17ExecIn(t *testing.T, out *verifh.Out, sc *c17Script, e2e bool) []int64 {
 				cnts := map[int]int{}
 				for _, s := range m {
 					n := len(s.ObservedBy)
-					if n >= sc.thresh {
+					if n >= curThresh {
 						eligible++
 						cnts[n]++
 					}
-					if n == sc.thresh {
+					if n == curThresh {
 						exact = true
 					}
-					if n == sc.thresh-1 {
+					if n == curThresh-1 {
 						below = true
 					}
 					for _, k := range s.ObservedBy {
@@ -759,7 +853,49 @@ func c17Gen(r *verifh.Rand, nops int, malformed bool) *c17Script {
 		if ip == "" && !r.Chance(1, 3) {
 			ip = c17Pick(r, remotes)
 		}
-		sc.conns = append(sc.conns, c17ConnSpec{local: loc, remoteIP: ip, port: 1000 + r.Intn(3)})
+		sc.conns = append(sc.conns, c17ConnSpec{local: loc, remoteIP: ip, port: 1000 + r.Intn(3), out: r.Chance(1, 3)})
+	}
+	// one case in three: the environment changes during the history (a listener is
+	// closed / reopened while connections stay open; ActivationThresh is changed
+	// after the manager exists).  Listen sets are drawn from the queried addresses.
+	dyn := r.Chance(1, 3)
+	curListen := sc.listen
+	curThresh := sc.thresh
+	envOp := func() bool { // returns true when the listen set changed
+		switch k := r.Intn(10); {
+		case k < 4 && len(curListen) > 0: // a listener goes away (mostly the main one, with every address on its thin waist)
+			drop := main
+			if r.Chance(1, 3) {
+				drop = c17Pick(r, curListen)
+			}
+			var nl []c17Addr
+			for _, a := range curListen {
+				if a.full() != drop.full() && (a.tw != drop.tw || r.Chance(1, 4)) {
+					nl = append(nl, a)
+				}
+			}
+			curListen = nl
+		case k < 6: // everything is listened on again
+			curListen = sc.listen
+		case k < 7: // a further listener
+			curListen = append(append([]c17Addr(nil), curListen...), c17Pick(r, sc.queries))
+		default:
+			n := curThresh + 1
+			switch r.Intn(4) {
+			case 0:
+				n = curThresh - 1
+			case 1:
+				n = 1 + r.Intn(5)
+			}
+			if n < 1 {
+				n = 1
+			}
+			curThresh = n
+			sc.ops = append(sc.ops, c17Op{kind: 7, thresh: n})
+			return false
+		}
+		sc.ops = append(sc.ops, c17Op{kind: 6, listen: curListen})
+		return true
 	}
 	// operations, in phases
 	gone := make([]bool, nc)
@@ -770,6 +906,11 @@ func c17Gen(r *verifh.Rand, nops int, malformed bool) *c17Script {
 			left = 2 + r.Intn(nc)
 			if phase == 4 { // few connections go away at a time
 				left = 1 + r.Intn(3)
+			}
+			if dyn && r.Chance(1, 3) {
+				if envOp() && r.Chance(1, 2) {
+					phase = 2 // tracked connections re-report under the new listen set
+				}
 			}
 		}
 		left--
@@ -947,6 +1088,156 @@ func c17GenPair(r *verifh.Rand) *c17Script {
 	return sc
 }
 
+// directed: the listen set changes while tracked connections stay open and
+// re-report.  thresh-1 observers vouch for A on local address L, one more
+// connection vouches for B; the listener of L is closed (or only one of two
+// addresses sharing L's thin waist goes away: then L's thin waist is still
+// listened on); the B connection switches to A.  "Reports on connections not
+// arriving at a listen address never count": A must not reach the threshold,
+// and B's connection vouches for nothing any more.  Then the listener comes
+// back and connections report again.
+func c17GenListenChange(r *verifh.Rand) *c17Script {
+	L, L2, other := c17Locals[0], c17Locals[8], c17Locals[3] // tcp/1, tcp/1 + /ws (same thin waist), tcp/2
+	sc := &c17Script{thresh: 1 + r.Intn(3), e2e: r.Chance(1, 3)}
+	sc.listen = []c17Addr{L, other}
+	if r.Chance(1, 3) {
+		sc.listen = []c17Addr{L, L2, other}
+	}
+	sc.queries = []c17Addr{L, L2, other}
+	n := sc.thresh + 2
+	for i := 0; i < n; i++ {
+		loc := L
+		if i == n-1 {
+			loc = other
+		}
+		sc.conns = append(sc.conns, c17ConnSpec{local: loc, remoteIP: fmt.Sprintf("1.2.3.%d", i+1), port: 1000, out: r.Chance(1, 3)})
+	}
+	pick := func() c17Addr { return c17Many[r.Intn(5)] }
+	A, B := pick(), pick()
+	for B.tw == A.tw {
+		B = pick()
+	}
+	sw := sc.thresh - 1 // the connection that switches
+	for i := 0; i < sw; i++ {
+		sc.ops = append(sc.ops, c17Op{kind: 1, conn: i, observed: A})
+	}
+	sc.ops = append(sc.ops, c17Op{kind: 1, conn: sw, observed: B})
+	var closed []c17Addr
+	for _, a := range sc.listen {
+		if a.tw != L.tw || (len(sc.listen) == 3 && a.full() == L2.full() && r.Chance(1, 2)) {
+			closed = append(closed, a)
+		}
+	}
+	sc.ops = append(sc.ops, c17Op{kind: 6, listen: closed})
+	sc.ops = append(sc.ops, c17Op{kind: 1, conn: sw, observed: A})
+	cur := closed
+	for i := 0; i < 8; i++ {
+		c := r.Intn(n)
+		switch k := r.Intn(10); {
+		case k < 4:
+			sc.ops = append(sc.ops, c17Op{kind: 1, conn: c, observed: []c17Addr{A, B, pick()}[r.Intn(3)]})
+		case k < 5:
+			sc.ops = append(sc.ops, c17Op{kind: 5, conn: c, observed: pick(), second: A})
+		case k < 6:
+			sc.ops = append(sc.ops, c17Op{kind: 3, conn: c})
+		case k < 8:
+			if len(cur) == len(sc.listen) {
+				cur = closed
+			} else {
+				cur = sc.listen
+			}
+			sc.ops = append(sc.ops, c17Op{kind: 6, listen: cur})
+		default:
+			sc.ops = append(sc.ops, c17Op{kind: 4, conn: c, observed: A, during: r.Intn(n)})
+		}
+	}
+	return sc
+}
+
+// directed: ActivationThresh is changed after the manager has been constructed.
+// k observers activate A under threshold t <= k; the threshold is raised above
+// k: A must no longer be reported ("only while at least the activation
+// threshold ... report it"); lowered again: reported again; then a random tail.
+func c17GenThresh(r *verifh.Rand) *c17Script {
+	L := c17Locals[r.Intn(2)]
+	sc := &c17Script{thresh: 1 + r.Intn(3), e2e: r.Chance(1, 4), listen: []c17Addr{L}, queries: []c17Addr{L}}
+	k := sc.thresh + r.Intn(2)
+	n := k + 3
+	for i := 0; i < n; i++ {
+		sc.conns = append(sc.conns, c17ConnSpec{local: L, remoteIP: fmt.Sprintf("1.2.3.%d", i+1), port: 1000, out: r.Chance(1, 3)})
+	}
+	var pool []c17Addr
+	lf, lp := c17FamProto(L.tw)
+	for _, a := range c17Observed {
+		f, p := c17FamProto(a.tw)
+		if a.tw != "" && f == lf && p == lp && !a.lb && !a.n64 && !a.relay && len(pool) < 5 {
+			pool = append(pool, a)
+		}
+	}
+	A := pool[r.Intn(len(pool))]
+	for i := 0; i < k; i++ {
+		sc.ops = append(sc.ops, c17Op{kind: 1, conn: i, observed: A})
+	}
+	sc.ops = append(sc.ops, c17Op{kind: 7, thresh: k + 1 + r.Intn(2)})
+	if r.Chance(1, 2) {
+		sc.ops = append(sc.ops, c17Op{kind: 1, conn: k, observed: A})
+	}
+	sc.ops = append(sc.ops, c17Op{kind: 7, thresh: sc.thresh})
+	for i := 0; i < 8; i++ {
+		c := r.Intn(n)
+		switch k := r.Intn(10); {
+		case k < 4:
+			sc.ops = append(sc.ops, c17Op{kind: 1, conn: c, observed: c17Pick(r, pool)})
+		case k < 6:
+			sc.ops = append(sc.ops, c17Op{kind: 3, conn: c})
+		default:
+			sc.ops = append(sc.ops, c17Op{kind: 7, thresh: 1 + r.Intn(6)})
+		}
+	}
+	return sc
+}
+
+// directed, on the real notification path (event bus -> worker, Disconnected
+// through the notifiee Start registered): connections of BOTH directions whose
+// local address is a listen address (an outbound connection dialed from the
+// listen socket: every QUIC dial, TCP with reuseport) vouch for A; they are
+// closed one by one in a random order: A must disappear as soon as fewer than
+// the threshold of open connections report it, whatever their direction.
+func c17GenDirections(r *verifh.Rand) *c17Script {
+	L := c17Locals[r.Intn(2)] // tcp listen address / quic listen address
+	sc := &c17Script{thresh: 1 + r.Intn(4), e2e: true, listen: []c17Addr{L}, queries: []c17Addr{L}}
+	n := sc.thresh + r.Intn(3)
+	for i := 0; i < n; i++ {
+		sc.conns = append(sc.conns, c17ConnSpec{local: L, remoteIP: fmt.Sprintf("1.2.3.%d", i+1), port: 1000, out: i%2 == 0 || r.Chance(1, 3)})
+	}
+	lf, lp := c17FamProto(L.tw)
+	var A c17Addr
+	for _, a := range c17Observed {
+		f, p := c17FamProto(a.tw)
+		if a.tw != "" && f == lf && p == lp && !a.lb && !a.n64 && !a.relay {
+			A = a
+			if r.Chance(1, 3) {
+				break
+			}
+		}
+	}
+	for i := 0; i < n; i++ {
+		sc.ops = append(sc.ops, c17Op{kind: 1, conn: i, observed: A})
+	}
+	perm := make([]int, n)
+	for i := range perm {
+		perm[i] = i
+	}
+	for i := n - 1; i > 0; i-- {
+		j := r.Intn(i + 1)
+		perm[i], perm[j] = perm[j], perm[i]
+	}
+	for _, c := range perm {
+		sc.ops = append(sc.ops, c17Op{kind: 3, conn: c})
+	}
+	return sc
+}
+
 func TestVerifNothing(t *testing.T) {}
 
 func TestVerifC17(t *testing.T) {
@@ -971,6 +1262,17 @@ func TestVerifC17(t *testing.T) {
 		sc = c17GenPair(r.Fork())
 		out.Case(c17Exec(t, out, sc, true))
 		out.Cover("cases.pair_on_eventbus")
+		for k := 0; k < 3; k++ {
+			sc = c17GenListenChange(r.Fork())
+			out.Case(c17Exec(t, out, sc, sc.e2e))
+			out.Cover("cases.listener_closed_under_tracked_conns")
+			sc = c17GenThresh(r.Fork())
+			out.Case(c17Exec(t, out, sc, sc.e2e))
+			out.Cover("cases.activation_thresh_changed_after_construction")
+			sc = c17GenDirections(r.Fork())
+			out.Case(c17Exec(t, out, sc, true))
+			out.Cover("cases.both_directions_closed_through_notifiee")
+		}
 	}
 	for i := 0; i < n; i++ {
 		rr := r.Fork()
@@ -1027,6 +1329,7 @@ func c17ScriptFromCase(t *testing.T, toks []int64) *c17Script {
 		tw := next()
 		next()
 		next()
+		outb := next() == 2
 		rk := next()
 		var r [8]int64
 		for j := range r {
@@ -1047,13 +1350,25 @@ func c17ScriptFromCase(t *testing.T, toks []int64) *c17Script {
 				ip = "::ffff:" + netip.AddrFrom16(b).Unmap().String()
 			}
 		}
-		sc.conns = append(sc.conns, c17ConnSpec{local: localBy(tw, 0, false), remoteIP: ip, port: 1000 + i%3})
+		sc.conns = append(sc.conns, c17ConnSpec{local: localBy(tw, 0, false), remoteIP: ip, port: 1000 + i%3, out: outb})
 	}
 	for pos < len(toks) {
 		kind := int(next())
-		op := c17Op{kind: kind, conn: int(next())}
-		if op.conn < 0 || op.conn >= nc {
-			t.Fatalf("c17 replay: connection %d out of range", op.conn)
+		op := c17Op{kind: kind}
+		switch kind {
+		case 6:
+			k := int(next())
+			for i := 0; i < k; i++ {
+				tw, rest := next(), next()
+				op.listen = append(op.listen, localBy(tw, rest, true))
+			}
+		case 7:
+			op.thresh = int(next())
+		default:
+			op.conn = int(next())
+			if op.conn < 0 || op.conn >= nc {
+				t.Fatalf("c17 replay: connection %d out of range", op.conn)
+			}
 		}
 		readObs := func() c17Addr {
 			lb, n64, rl, otw := next() != 0, next() != 0, next() != 0, next()
@@ -1084,7 +1399,7 @@ func c17ScriptFromCase(t *testing.T, toks []int64) *c17Script {
 					t.Fatalf("c17 replay: connection %d out of range", op.during)
 				}
 			}
-		case 2, 3:
+		case 2, 3, 6, 7:
 		default:
 			t.Fatalf("c17 replay: bad op %d", kind)
 		}
